@@ -355,8 +355,17 @@ class MultiPaxosNode(Entity):
             self._apply_committed(newly_committed)
         return []
 
-    def _handle_heartbeat(self, event: Event) -> None:
+    def _handle_heartbeat(self, event: Event) -> list[Event] | None:
         metadata = event.context.get("metadata", {})
+
+        # Our own heartbeat tick (scheduled by _send_heartbeat): keep heartbeating
+        # while we lead. It is not a heartbeat from another leader and must not
+        # demote us.
+        if metadata.get("self_heartbeat"):
+            if not self._is_leader:
+                return None
+            return self._send_heartbeat()
+
         ballot = Ballot(metadata.get("ballot_number", 0), metadata.get("ballot_node", ""))
         leader_commit = metadata.get("commit_index", 0)
 
